@@ -37,7 +37,7 @@ def node_edge_sets(world):
 
 class C20(Machine):
     ID = "C20"
-    FAMILY_WEIGHTS = {"sparse": 2, "dense": 1, "canal": 5, "modular": 5, "maa": 1, "cascade": 6, "degenerate": 1}
+    FAMILY_WEIGHTS = {"sparse": 2, "dense": 1, "canal": 5, "modular": 5, "maa": 1, "cascade": 6, "degenerate": 1, "inputs_mix": 2}
     FMTS = ("bnet", "aeon", "api")
     SHUFFLE_ORDER = True
     NMAX = {"quick": 6, "thorough": 8}
